@@ -260,6 +260,9 @@ func (f *Func) ClassifyReturn(s Site) ReturnClass {
 			return RetFailure
 		}
 		if tv, ok := info.Types[x.Fun]; ok && tv.IsType() {
+			if len(x.Args) == 1 && IsNilIdent(info, ast.Unparen(x.Args[0])) {
+				return RetSuccess // error(nil)
+			}
 			return RetFailure // conversion to an error type
 		}
 		return RetTail
